@@ -8,6 +8,7 @@
 //!                        `grid op dir n thread profile \t ok g=k,… | err class | abort … | slow …`
 //! `depth child op dir n thread`   the scenario itself (prints `stage …` lines, then `result …`)
 //! `depth drop-bytes <n>…` native stack bytes used by the (uninstrumentable) drop glue of `Cell`
+//! `depth chain-dump closure|cont <n>`  debug aid: the heap cells of a chain built at run time and the marker's depth
 use marwood::cell::Cell;
 use marwood::number::Number;
 use marwood::vm::verif::depth;
@@ -196,8 +197,93 @@ const EXPR_DIRS: [&str; 3] = ["expr-app", "expr-lambda", "expr-let"];
 const EXPR_OPS: [&str; 3] = ["read", "build", "drop"];
 
 /// The scenario grid: (operation, direction).
+/// Library procedures applied to LONG run-time data (a list, a string and a vector of n elements, an association
+/// list of n entries): the operation "evaluating computations on data nested n deep" of the property, along cdr, for
+/// every procedure that walks such data. Label (no blanks) and the expression; `l s v al` are the long objects.
+/// The value is bound, never returned (returning it would measure the result conversion, which is `write`'s cell).
+const LIB: [(&str, &str); 62] = [
+    ("length", "(length l)"),
+    ("list?", "(list? l)"),
+    ("reverse", "(reverse l)"),
+    ("append-first", "(append l '(1))"),
+    ("append-last", "(append '(1) l)"),
+    ("append-both", "(append l l)"),
+    ("list-tail", "(list-tail l (- n 1))"),
+    ("list-ref-last", "(list-ref l (- n 1))"),
+    ("list-ref-early", "(list-ref l 5)"),
+    ("memq-miss", "(memq 'zz l)"),
+    ("memv-miss", "(memv -1 l)"),
+    ("member-miss", "(member -1 l)"),
+    ("member-hit-late", "(member (- n 1) l)"),
+    ("assq-miss", "(assq 'zz al)"),
+    ("assv-miss", "(assv -1 al)"),
+    ("assoc-miss", "(assoc -1 al)"),
+    ("map-1", "(map (lambda (x) x) l)"),
+    ("map-2", "(map + l l)"),
+    ("map-builtin", "(map list l)"),
+    ("for-each", "(for-each (lambda (x) x) l)"),
+    ("apply-plus", "(apply + l)"),
+    ("apply-list", "(apply list l)"),
+    ("apply-vector", "(apply vector l)"),
+    ("apply-max", "(apply max l)"),
+    ("list->vector", "(list->vector l)"),
+    ("vector->list", "(vector->list v)"),
+    ("vector->list-from", "(vector->list v 10)"),
+    ("vector-copy", "(vector-copy v)"),
+    ("vector-fill!", "(vector-fill! v 2)"),
+    ("vector-copy!", "(vector-copy! v 0 v)"),
+    ("make-vector", "(make-vector n l)"),
+    ("equal-list-self", "(equal? l l)"),
+    ("equal-list-copy", "(equal? l (append l '()))"),
+    ("equal-vector-copy", "(equal? v (vector-copy v))"),
+    ("equal-string-copy", "(equal? s (string-copy s))"),
+    ("string->list", "(string->list s)"),
+    ("string->list-slice", "(string->list s 10 20)"),
+    ("list->string", "(list->string (string->list s))"),
+    ("string-copy", "(string-copy s)"),
+    ("substring", "(substring s 1 (- n 1))"),
+    ("string-append", "(string-append s s)"),
+    ("string-upcase", "(string-upcase s)"),
+    ("string-downcase", "(string-downcase s)"),
+    ("string-foldcase", "(string-foldcase s)"),
+    ("string<?", "(string<? s s)"),
+    ("string-ci=?", "(string-ci=? s s)"),
+    ("string-fill!", "(string-fill! s #\\b)"),
+    ("string-ref-last", "(string-ref s (- n 1))"),
+    ("string->symbol", "(string->symbol s)"),
+    ("symbol->string", "(symbol->string (string->symbol s))"),
+    ("string->number", "(string->number s)"),
+    ("number->string-big", "(number->string (expt 7 n))"),
+    ("string->vector", "(string->vector s)"),
+    ("vector->string", "(vector->string (make-vector n #\\a))"),
+    ("string-apply", "(apply string (string->list s))"),
+    ("list-copy", "(list-copy l)"),
+    ("length-of-map", "(length (map (lambda (x) (cons x x)) l))"),
+    // type errors whose payload is the long datum: the error value is built, classified and dropped
+    ("err-vector-ref-list", "(vector-ref l 0)"),
+    ("err-string-length-list", "(string-length l)"),
+    ("err-plus-list", "(+ 1 l)"),
+    ("err-car-vector", "(car v)"),
+    ("err-apply-improper", "(apply + 1 (append l 2))"),
+];
+
+fn lib_setup(n: usize) -> String {
+    format!(
+        "(define n {})
+         (define (mk k) (let loop ((i 0) (acc '())) (if (= i k) acc (loop (+ i 1) (cons (- k i 1) acc)))))
+         (define l (mk n))
+         (define al (let loop ((i 0) (acc '())) (if (= i n) acc (loop (+ i 1) (cons (cons i i) acc)))))
+         (define s (make-string n #\\a))
+         (define v (make-vector n 1))",
+        n
+    )
+}
+
 fn scenarios() -> Vec<(&'static str, &'static str)> {
     let mut v = vec![];
+    for (label, _) in LIB {
+        v.push(("lib", label));
+    }
     for d in DATA_DIRS {
         for o in DATA_OPS {
             v.push((o, d));
@@ -313,6 +399,27 @@ fn scenario(op: &str, dir: &str, n: usize) -> String {
             };
             std::mem::forget(r);
             out
+        }
+        ("lib", _) => {
+            let expr = match LIB.iter().find(|(l, _)| *l == dir) {
+                Some((_, e)) => *e,
+                None => return "err unknown-lib-scenario".into(),
+            };
+            stage("vm");
+            let mut vm = Vm::new();
+            vm.set_system_interface(Box::new(Sink));
+            stage("setup");
+            if let Err(e) = eval_all(&mut vm, &lib_setup(n)) {
+                return e;
+            }
+            stage("call");
+            let r = eval_all(&mut vm, &format!("(define r {})", expr));
+            stage("collect");
+            vm.verif_force_gc();
+            match r {
+                Ok(_) => "ok -".into(),
+                Err(e) => e,
+            }
         }
         ("drop", _) if data || expr => {
             stage("construct");
@@ -620,6 +727,7 @@ fn grid(args: &[String]) {
     let mut only: Option<String> = None;
     let mut timeout = 30u64;
     let mut jobs = 16usize;
+    let mut threads: Vec<&'static str> = vec!["main", "t2m"];
     let mut i = 0;
     while i < args.len() {
         match args[i].as_str() {
@@ -635,6 +743,10 @@ fn grid(args: &[String]) {
                 jobs = args[i + 1].parse().unwrap();
                 i += 1;
             }
+            "--threads" => {
+                threads = args[i + 1].split(',').map(|t| if t == "main" { "main" } else { "t2m" }).collect();
+                i += 1;
+            }
             d => depths.push(d.parse::<usize>().expect("depth")),
         }
         i += 1;
@@ -648,7 +760,7 @@ fn grid(args: &[String]) {
             }
         }
         for &n in &depths {
-            for thread in ["main", "t2m"] {
+            for &thread in &threads {
                 work.push((op, dir, n, thread));
             }
         }
@@ -812,14 +924,22 @@ fn measure(depths: &[usize]) {
             affine.push((format!("{} expr-let", g), n, depth::max_of_group(g)));
         }
     }
-    // marker on chains built at run time (other roots contribute a constant)
+    // marker on chains built at run time: `mark` called on the outermost closure / newest continuation, compared
+    // with the graph-level model `markDepthHeap` on `closureChain n` / `contChain n` (exact)
     for &n in depths {
         for dir in CHAIN_DIRS {
-            eval_all(&mut vm, &mk_program(dir)).expect("mk");
+            eval_all(&mut vm, &chain_program(dir)).expect("mk");
             eval_all(&mut vm, &format!("(define x (mk {}))", n)).expect("build");
-            depth::reset();
+            // a collection leaves no mark bit behind
             vm.verif_force_gc();
-            affine.push((format!("mark-chain {}", dir), n, depth::max_of_group("mark")));
+            match global_ptr(&vm, "x") {
+                Some(root) => {
+                    depth::reset();
+                    vm.verif_heap_mut().mark(root);
+                    line("mark", dir, n, format!("ok {}", depth::max_of_group("mark")));
+                }
+                None => line("mark", dir, n, "err no-root".into()),
+            }
             eval_all(&mut vm, "(define x 0)").expect("x");
             vm.verif_force_gc();
         }
@@ -833,16 +953,12 @@ fn measure(depths: &[usize]) {
         ("compile expr-let", 6),
         ("free expr-let", 4),
         ("macro expr-let", 0),
-        ("mark-chain closure", 5),
-        ("mark-chain cont", 3),
     ];
     for (label, slope) in expected {
         let pts: Vec<(usize, usize)> = affine.iter().filter(|a| a.0 == label).map(|a| (a.1, a.2)).collect();
         let mut obs = "too-few-points".to_string();
         if pts.len() >= 2 {
-            // chains are reached from the global bindings, a HashMap: the constant varies by a frame
-            // or two with the iteration order
-            let slack: i64 = if label.starts_with("mark-chain") { 3 } else { 0 };
+            let slack: i64 = 0;
             let (n0, d0) = pts[0];
             let ok = pts.iter().all(|&(n, d)| {
                 ((d as i64 - d0 as i64) - slope as i64 * (n as i64 - n0 as i64)).abs() <= slack
@@ -945,7 +1061,7 @@ fn main() {
                 .unwrap();
         }
         _ => {
-            eprintln!("usage: depth measure <n>… | grid <n>… [--only op/dir] [--timeout s] [--jobs k] | drop-bytes <n>…");
+            eprintln!("usage: depth measure <n>… | grid <n>… [--only op/dir] [--timeout s] [--jobs k] | drop-bytes <n>… | chain-dump closure|cont <n>");
             std::process::exit(2);
         }
     }
